@@ -152,6 +152,27 @@ def run_shard(ctx):
             kernel.count(f"C12:builder-raised-{type(ex).__name__}")
             continue
         run_expr(ctx, ex_, "product-of-fractions-as-divisor")
+    # Q-factors that agree in their smallest domain and codomain names (their sort keys tie): three or more in one product
+    from y0.dsl import Q
+
+    for i in range(ctx.share({"quick": 400, "thorough": 5000}[ctx.tier])):
+        names = rng.sample([n for n in ge.NAMES if n.isidentifier() and n != "pi*"], 6)
+        a, b, c, d, w, z = (Variable(n) for n in names)
+        lo = min(names[1:])
+        qs = [Q[a](b, x) for x in (c, d, w, z)]
+        rng.shuffle(qs)
+        try:
+            ex_ = qs[0]
+            for q_ in qs[1: rng.choice([3, 4])]:
+                ex_ = ex_ * q_
+            if i % 3 == 0:
+                ex_ = ex_ * P(c | a)
+            if i % 4 == 0:
+                ex_ = Sum[d](ex_)
+        except Exception as ex:  # noqa: BLE001
+            kernel.count(f"C12:builder-raised-{type(ex).__name__}")
+            continue
+        run_expr(ctx, ex_, "tied-q-factors")
     # deep nesting: e_{n+1} = Sum[B](e_n * P(A, B) / P(A)) (every member denotes P(A)); the printed text must parse at any
     # depth (the meaning is compared up to depth 6 only: the evaluation of nested sums is exponential in the depth)
     if ctx.mine(11) or ctx.mine(12):
